@@ -72,17 +72,27 @@ Section DLemmas.
     - rewrite (not_truthy_items _ _ T). destruct (ds_compat src); reflexivity.
   Qed.
 
-  (* ---------- refinement ---------- *)
-  Lemma dict_refines s op :
+  Lemma no_clash_call s src kw :
+    kw_clash (DUpdate src kw) = false -> p_update_call VK VV s src kw = p_update VK VV s src kw.
+  Proof.
+    unfold kw_clash, p_update_call, kw_has. intros H. apply orb_false_iff in H. destruct H as [H1 H2].
+    destruct (kw_get kw_self kw); [discriminate|].
+    destruct (kw_get kw_iterable kw); [discriminate|]. reflexivity.
+  Qed.
+
+  (* ---------- refinement (outside the region of F51) ---------- *)
+  Lemma dict_refines_partial s op :
+    kw_clash op = false ->
     daccepted VK VV s op = true -> proxy_dstep VK VV tg s op = spec_dstep VK VV tg s op.
   Proof.
-    intros Hacc. unfold spec_dstep.
+    intros Hclash Hacc. unfold spec_dstep.
     destruct op; ddispatch; cbn [override_dstep norm_dop daccepted dretag] in *;
       try (destruct (b_dstep s _); reflexivity).
     - (* setitem *) rewrite (pair_ok_validate _ _ Hacc). unfold norm_pair.
       destruct (b_dstep s _); reflexivity.
     - (* update *)
       apply andb_prop in Hacc. destruct Hacc as [Hs Hk].
+      rewrite (no_clash_call _ _ _ Hclash).
       unfold p_update. rewrite (update_src_ok _ _ Hs), (kwloop_all_ok _ _ Hk).
       cbn [b_dstep lift_p]. reflexivity.
     - (* |= *)
@@ -98,19 +108,22 @@ Section DLemmas.
   Qed.
 
   Lemma drun_acc_ext (acc : list (res pyval)) s ops :
+    forallb (fun op => negb (kw_clash op)) ops = true ->
     daccepted_run VK VV tg s ops = true ->
     fold_left (run_acc (proxy_dstep VK VV tg)) ops (s, acc) =
     fold_left (run_acc (spec_dstep VK VV tg)) ops (s, acc).
   Proof.
-    revert s acc. induction ops as [|op r IH]; intros s acc H; [reflexivity|].
+    revert s acc. induction ops as [|op r IH]; intros s acc Hc H; [reflexivity|].
     simpl in H. apply andb_prop in H. destruct H as [Ha Hr].
+    simpl in Hc. apply andb_prop in Hc. destruct Hc as [Hc1 Hc2]. apply negb_true_iff in Hc1.
     simpl. unfold run_acc at 2 4. cbn [fst snd].
-    rewrite <- (dict_refines s op Ha).
+    rewrite <- (dict_refines_partial s op Hc1 Ha).
     destruct (proxy_dstep VK VV tg s op) as [s' o] eqn:E. cbn [fst] in Hr.
-    apply IH. exact Hr.
+    apply IH; assumption.
   Qed.
 
-  Lemma drun_refines s ops :
+  Lemma drun_refines_partial s ops :
+    forallb (fun op => negb (kw_clash op)) ops = true ->
     daccepted_run VK VV tg s ops = true ->
     run (proxy_dstep VK VV tg) s ops = run (spec_dstep VK VV tg) s ops.
   Proof. unfold run. apply drun_acc_ext. Qed.
@@ -280,6 +293,15 @@ Section DInvariant.
     apply kwloop_valid; auto.
   Qed.
 
+  Lemma p_update_call_valid s src kw :
+    Forall (dvalid VK VV) s -> src_wf src -> Forall (dvalid VK VV) (fst (p_update_call VK VV s src kw)).
+  Proof.
+    intros Hs Hw. unfold p_update_call. destruct (kw_has kw_self kw); [exact Hs|].
+    destruct (kw_get kw_iterable kw) as [v|]; [|apply p_update_valid; auto].
+    destruct src; try exact Hs.
+    destruct (py_truthy v); [destruct v; exact Hs|]. apply kwloop_valid; auto.
+  Qed.
+
   Lemma proxy_dstep_valid s op :
     Forall (dvalid VK VV) s -> dop_wf op -> Forall (dvalid VK VV) (fst (proxy_dstep VK VV tg s op)).
   Proof.
@@ -289,7 +311,7 @@ Section DInvariant.
     - destruct (d_validate VK VV k v) as [[k' v']| |] eqn:E; cbn [fst]; auto.
       apply (b_dstep_Forall PKp PVp); auto. constructor; [|constructor].
       exact (d_validate_valid VK VV _ _ _ V_idem E).
-    - pose proof (p_update_valid s src kw Hs Hw) as G. destruct (p_update VK VV s src kw); exact G.
+    - pose proof (p_update_call_valid s src kw Hs Hw) as G. destruct (p_update_call VK VV s src kw); exact G.
     - pose proof (p_update_valid s src [] Hs Hw) as G. destruct (p_update VK VV s src []); exact G.
     - destruct (d_validate VK VV k (opt_or_none v)) as [[k' v']| |] eqn:E; cbn [fst]; auto.
       apply (b_dstep_Forall PKp PVp); auto. constructor; [|constructor].
@@ -398,3 +420,18 @@ Proof. vm_compute. reflexivity. Qed.
 
 Example ex_dvalid : Forall (dvalid ex_V ex_V) [(PInt 0, PInt 0)].
 Proof. repeat constructor. Qed.
+
+(* ---------- F51: the full refinement statement is false inside the region kw_clash ---------- *)
+Definition id_V (x : pyval) : res pyval := Ok x.
+
+Lemma dict_refines_refuted :
+  exists VK VV tg s op,
+    daccepted VK VV s op = true /\ proxy_dstep VK VV tg s op <> spec_dstep VK VV tg s op.
+Proof.
+  exists id_V, id_V, 1%N, [], (DUpdate DSNone [(PStr kw_iterable, PInt 0)]).
+  split; [reflexivity|]. vm_compute. discriminate.
+Qed.
+
+Example ex_no_clash :
+  forallb (fun op => negb (kw_clash op)) [DUpdate DSNone [(PStr (sa "k"), PInt 1)]; DIOr DSSelf] = true.
+Proof. reflexivity. Qed.
